@@ -40,7 +40,23 @@ fn key_text(k: &str, escaped: bool) -> String {
     }
 }
 
+/// the spelling of an unknown field name: short, long ASCII, long with multi-byte characters at various offsets, escapes
+fn unknown_key(variant: usize) -> String {
+    match variant % 6 {
+        0 => "extra".to_string(),
+        1 => "x".repeat(100),
+        2 => format!("a{}", "\u{e9}".repeat(40)),
+        3 => "\u{e9}".repeat(45),
+        4 => format!("{}{}", "k".repeat(63), "\u{1F600}".repeat(4)),
+        _ => "num_cols ".to_string(),
+    }
+}
+
 fn render(doc: &Value, escaped: bool) -> String {
+    render_v(doc, escaped, 0)
+}
+
+fn render_v(doc: &Value, escaped: bool, variant: usize) -> String {
     match doc["top"].as_str().unwrap() {
         "array" => "[1,2,3]".into(),
         "number" => "42".into(),
@@ -58,7 +74,11 @@ fn render(doc: &Value, escaped: bool) -> String {
                         "data" => data_text(&f["val"]),
                         _ => "7".to_string(),
                     };
-                    format!("{}:{}", key_text(k, escaped), v)
+                    if k == "extra" {
+                        format!("{}:{}", serde_json::to_string(&unknown_key(variant)).unwrap(), v)
+                    } else {
+                        format!("{}:{}", key_text(k, escaped), v)
+                    }
                 })
                 .collect();
             format!("{{{}}}", fields.join(","))
@@ -97,8 +117,10 @@ fn run_doc(case: &Value) -> Vec<Fail> {
     let exp_ok = x["res"]["k"] == "ok";
     let may_reject = x["may_reject"].as_bool().unwrap_or(false);
     let mut transports: Vec<(String, DeOut)> = Vec::new();
-    for escaped in [false, true] {
-        let text = render(doc, escaped);
+    let has_unknown = doc["fields"].as_array().map(|l| l.iter().any(|f| f["key"] == "extra")).unwrap_or(false);
+    let variants: Vec<(bool, usize)> = if has_unknown { (0..6).map(|v| (v % 2 == 1, v)).collect() } else { vec![(false, 0), (true, 0)] };
+    for (escaped, variant) in variants {
+        let text = render_v(doc, escaped, variant);
         let tag = if escaped { "+escaped_keys" } else { "" };
         transports.push((format!("from_str{tag}"), observe(guarded(|| serde_json::from_str::<TooDee<u32>>(&text)))));
         transports.push((format!("from_slice{tag}"), observe(guarded(|| serde_json::from_slice::<TooDee<u32>>(text.as_bytes())))));
@@ -224,16 +246,23 @@ fn run_roundtrip(case: &Value) -> Vec<Fail> {
     let n = (nc * nr) as u32;
     if case["stratum"] == "roundtrip_owned" {
         roundtrip_all(&TooDee::from_vec(nc, nr, (1..=n).map(u32::of).collect()), &mut fails);
+        if n > 20_000 {
+            return fails; // very large arrays: the Copy element type only (the others would need hundreds of megabytes)
+        }
         roundtrip_all(&TooDee::from_vec(nc, nr, (1..=n).map(i64::of).collect()), &mut fails);
         roundtrip_all(&TooDee::from_vec(nc, nr, (1..=n).map(String::of).collect()), &mut fails);
         roundtrip_all(&TooDee::from_vec(nc, nr, (1..=n).map(<Option<u8>>::of).collect()), &mut fails);
         roundtrip_all(&TooDee::from_vec(nc, nr, (1..=n).map(<Vec<u8>>::of).collect()), &mut fails);
     } else {
         // a window of size (nc, nr) at every offset inside a parent two larger in each direction
+        let big = n > 20_000;
         let (pc, pr) = (nc + 2, nr + 2);
         let mut parent: TooDee<u32> = TooDee::from_vec(pc, pr, (1..=(pc * pr) as u32).map(u32::of).collect());
         for oc in 0..=2usize {
             for or in 0..=2usize {
+                if big && (oc, or) != (1, 1) {
+                    continue;
+                }
                 let expect: TooDee<u32> = TooDee::from(parent.view((oc, or), (oc + nc, or + nr)));
                 let mut outs: Vec<(String, Result<Result<TooDee<u32>, serde_json::Error>, ()>)> = Vec::new();
                 let ser_ok = guarded(|| {
